@@ -30,6 +30,8 @@ ALPHABET = [
     "STOR n", "STOR g", "STOR d", "STOR nope/x", "APPE g", "APPE n",
     "REST 2", "REST 0", "REST", "REST x", "REST 3abc", "REST ²", "REST ٣", "REST -1", "REST  2", "REST 20",
     "REST " + "9" * 4301,
+    # verbs spelled with non-ascii letters that str.lower() / str.upper() fold onto ascii ones: unsupported verbs
+    "M\u212aD n", "m\u212ad n", "\u017fY\u017fT", "\u0131\u0307",
     "ABOR", "FOO", "", "NOOP x", "QUIT",
 ]
 LOGINS = ["USER anonymous", "USER bob", "PASS pw", "PASS bad", "PWD", "USER nobody"]
@@ -240,6 +242,55 @@ def timeout_case(item):
     return part
 
 
+def ipv6_case(item):
+    """control connection over IPv6: PASV cannot be served there (503) - and, like every refused command, changes
+    nothing: no passive listener is left behind, a following transfer command is out of sequence; EPSV then works"""
+    pre, = item
+    from vf.rig import Rig
+    part = report.Partial()
+    problems = []
+    rig = Rig(tree=TREE, host="::1", server_kwargs={"wait_future_timeout": 1})
+    try:
+        w = rig.world
+        rig.ev(0, "@connect")
+        rig.ev(0, "USER anonymous")
+        for e in pre:
+            rig.ev(0, e)
+        had = bool(rig.sessions[0].pasv_port)
+        before = len([l for l in w.net.all_listeners if not l.closed])
+        r = rig.ev(0, "PASV")
+        codes = [c for c, _ in (r or [])]
+        if codes != ["503"]:
+            problems.append({"kind": "replies", "line": "PASV", "got": codes, "expected": ["503"]})
+        after = len([l for l in w.net.all_listeners if not l.closed])
+        if after > before:
+            problems.append({"kind": "refused-command-changed-state", "line": "PASV", "what": "a passive listener was opened"})
+        if not had:
+            r = rig.ev(0, "LIST")
+            codes = [c for c, _ in (r or [])]
+            if codes != ["503"]:
+                problems.append({"kind": "refused-command-changed-state", "line": "LIST after the refused PASV", "got": codes,
+                                 "expected": ["503"]})
+        r = rig.ev(0, "EPSV")
+        rig.ev(0, "@data")
+        r = rig.ev(0, "LIST")
+        codes = [c for c, _ in (r or [])]
+        if codes != ["150", "226"]:
+            problems.append({"kind": "replies", "line": "LIST after EPSV", "got": codes, "expected": ["150", "226"]})
+        part.evaluations += 1
+        part.traces += 1
+        part.transitions += w.net.n_events
+        k = report.fp(["ipv6", pre])
+        part.states.add(k)
+        part.nontrivial.add(k)
+        for p_ in problems[:1]:
+            part.violation({"kind": p_["kind"], "verb": "PASV", "ipv6": True}, {"problem": p_, "history": list(pre)},
+                           replay={"ipv6": [list(pre)]})
+    finally:
+        rig.close()
+    return part
+
+
 def run(tier, seed, t0):
     parts = []
     if tier == "quick":
@@ -270,10 +321,12 @@ def run(tier, seed, t0):
         parts.append(sweep("pathio", ["USER anonymous", "PASV", "@data"], REDUCED, 2))
         parts.append(sweep("memory", ["USER anonymous", "EPSV", "@data", "REST 2"], ALPHABET, 2))
     parts.append(sweep_hist("memory", attribute_name_histories(), "attribute-names"))
+    parts += report.pmap(ipv6_case, [(pre,) for pre in ([], ["PWD"], ["EPSV"], ["EPSV", "@data"], ["REST 2"])])
     parts += report.pmap(timeout_case, [(pre, line) for pre in TIMEOUT_PREFIXES for line in ALPHABET])
     part = report.merge_all(parts)
     bounds = {"path_timeout": "every command of the alphabet from %d prefixes on a server with path_timeout=0.05 whose "
                               "backend calls take 0.125 s" % len(TIMEOUT_PREFIXES),
+              "ipv6": "control connection over ::1: PASV (503) from 5 pre-states must leave no listener and no passive state; EPSV works",
               "attribute_names": "every attribute name of aioftp.Server that is not an FTP command, sent as a verb (before / after login, with an argument)",
               "alphabet_size": len(ALPHABET), "reduced_alphabet": len(REDUCED), "tier_depths": "quick: memory 4, pathio 3, async 2; "
               "thorough: memory 6, pathio 4, async 3", "tree": "d/, d/f, g", "users": ["anonymous", "bob(password, home /d)"]}
@@ -290,6 +343,10 @@ def run(tier, seed, t0):
 def replay(path):
     data = json.loads(open(path).read())
     rp = data["replay"]
+    if "ipv6" in rp:
+        part = ipv6_case((rp["ipv6"][0],))
+        print(json.dumps([v["detail"] for v in part.violations], indent=1, default=repr))
+        return 1 if part.violations else 0
     if "timeout" in rp:
         part = timeout_case(tuple(rp["timeout"]))
         print(json.dumps([v["detail"] for v in part.violations], indent=1, default=repr))
